@@ -17,14 +17,15 @@ m = {
               "source_commits": hook_commits,
               "add_only": True},
     "engines": [{"name": "verifharness", "path": "harness",
-                 "serves_properties": sorted(CHECKS),
+                 "serves_properties": sorted(set(open(os.path.join(ROOT, "claimed.txt")).read().split())),
                  "kind_free_text": "Go test binaries built from /repo's working tree (tag verif, -race where the quantifier includes schedules) running seeded workloads under monitors; driver ./check turns their result files into evidence and verdict lines"}],
     "checks": [],
     "not_applicable": [],
     "notes": "Technique family: runtime monitoring and sanitizers. See DESIGN.md. Genuine defects: known_findings.json.",
 }
+claimed = set(open(os.path.join(ROOT, "claimed.txt")).read().split())
 for cid in props:
-    if cid in CHECKS:
+    if cid in CHECKS and cid in claimed:
         c = CHECKS[cid]
         m["checks"].append({
             "property_id": cid,
